@@ -49,7 +49,7 @@ def run(ctx) -> None:
         for D in (1, 60, 900, 86400, 90000, 864000):
             pool = sorted({0, D / 2, D, 1.5 * D, 2 * D, 2.9 * D, 3 * D, (n - 1) * D, n * D, (n + 3) * D} - {-D})
             if D >= 86400:  # sampling steps of a day and more (daily / 25-hourly / 10-daily records): a thinner sweep
-                pool = sorted({0, D, 2 * D, 3 * D, (n - 1) * D} - {-D})
+                pool = sorted({0, D, 2 * D, 3 * D, (n - 1) * D, 2 * D - 1, 3 * D - 1, 2 * D + 1} - {-D})  # a second short of k steps is k-1 steps
             for st in pool:
                 for ft in pool:
                     i += 1
